@@ -14,10 +14,6 @@
 (* the driver runs them as sanity checks (checks/c13.py BROKEN).               *)
 EXTENDS Server
 
-One     == <<1>>
-Same    == <<1, 1>>
-Fresh   == <<1, 2>>
-
 \* every interesting action label occurs (non-vacuity, used with -coverage as well)
 Reached(tag) == act # <<>> /\ act[1] = tag
 =============================================================================
